@@ -296,6 +296,62 @@ CORPUS = [
 ]
 
 
+def statistics_stream(run, driver, n):
+    """math_utils.weighted_median / compute_inflate against the Lean model on exact inputs: dyadic values, weights with a power-of-two
+    total (so that normalised running weights are exact in binary64 and can hit one half exactly), zero weights, ties"""
+    C.use_repo()
+    from elexmodel.utils import math_utils
+
+    rng = run.rng
+    ops, meta = [], []
+    for _ in range(n):
+        k = rng.choice([1, 2, 3, 4, 5, 8, 13])
+        total = 2 ** rng.randint(max(1, k.bit_length()), 10)
+        cuts = sorted(rng.sample(range(0, total + 1), k - 1)) if k > 1 else []
+        ws = [b - a for a, b in zip([0] + cuts, cuts + [total])]  # zero weights possible
+        if rng.random() < 0.4 and k > 1:
+            # force a running weight of exactly one half somewhere
+            ws = [total // 2] + ws[1:]
+            rest = total - total // 2
+            s = sum(ws[1:])
+            ws[1:] = [w * rest // s if s else 0 for w in ws[1:]]
+            ws[-1] += total - sum(ws)
+        xs = [Fraction(rng.randint(-40, 40), rng.choice([1, 2, 4, 8])) for _ in range(k)]
+        if rng.random() < 0.3 and k > 2:
+            xs[1] = xs[0]
+        if len(set(xs)) != len(xs) and any(w == 0 for w in ws):
+            continue  # argsort order among equal values with a zero weight in between is unspecified
+        case = {"statistics": True, "x": [str(x) for x in xs], "weights": ws, "total": total}
+        w = np.array([float(Fraction(a, total)) for a in ws])
+        try:
+            got = math_utils.weighted_median(np.array([float(x) for x in xs]), w)
+            got = C.frac(float(got))
+        except Exception as ex:
+            got = {"raises": type(ex).__name__}
+        infl = C.frac(float(math_utils.compute_inflate(np.array([float(a) for a in ws])))) if sum(ws) else None
+        run.case(case, len(set(xs)) > 1)
+        run.count("calibration statistics")
+        ops.append({"op": "gauss.wmedian", "xw": [[C.rat(x), C.rat(Fraction(a, total))] for x, a in zip(xs, ws)]})
+        meta.append((case, got, infl, ws))
+    if driver is None or not ops:
+        return
+    for (case, got, infl, ws), o in zip(meta, driver.run(ops)):
+        m = None if o["wmedian"] is None else C.unrat(o["wmedian"])
+        if isinstance(got, dict):
+            if m is not None:
+                run.diff("weighted_median raised where the model has a value", input=case, impl=got, model=o["wmedian"])
+            continue
+        if m != got:
+            run.diff("weighted_median vs model", input=case, impl=str(got), model=o["wmedian"])
+            continue
+        tot = sum(ws)
+        want_infl = Fraction(sum(a * a for a in ws), tot * tot) if tot else None
+        if infl is not None and not C.close(infl, want_infl, Fraction(1, 10**12)):
+            run.diff("compute_inflate vs sum of squares over square of sum", input=case, impl=str(infl), model=str(want_infl))
+            continue
+        run.traces += 1
+
+
 def extract(run):
     from harness import extract as X
 
@@ -326,6 +382,7 @@ def explore(run, driver, budget):
             run.broken.append("model rejected a case: " + mout["error"])
             mout = None
         check(run, c, impl, frames, mout, maps[i])
+    statistics_stream(run, driver, {"quick": 200, "thorough": 8000, "search": 1500}[budget])
 
 
 def replay(run, driver, payload):
